@@ -45,20 +45,22 @@ type scope struct {
 }
 
 type Session struct {
-	cmd       *exec.Cmd
-	in        io.WriteCloser
-	out       *bufio.Reader
-	scopes    []*scope
-	defined   map[*sym.Term]string
-	declared  map[string]bool
-	mark      int
-	TimeoutMS int
-	Stats     Stats
-	Portfolio bool
-	CrossEach int // cross-check every n-th final query with other back ends (0 = never)
-	LastErr   string
-	bin       string
-	args      []string
+	cmd        *exec.Cmd
+	in         io.WriteCloser
+	out        *bufio.Reader
+	scopes     []*scope
+	defined    map[*sym.Term]string
+	declared   map[string]bool
+	mark       int
+	TimeoutMS  int
+	Stats      Stats
+	Portfolio  bool
+	CrossEach  int // cross-check every n-th final query with other back ends (0 = never)
+	CrossFirst int // ... and each of the first CrossFirst final queries of this session
+	finalSeen  int
+	LastErr    string
+	bin        string
+	args       []string
 
 	pendingScope bool
 }
@@ -277,8 +279,9 @@ func (s *Session) Check(final bool, extra ...*sym.Term) Result {
 			s.Stats.Fallback[who]++
 		}
 	} else if final && s.CrossEach > 0 && res != Unknown {
-		s.Stats.CrossChecks++
-		if s.Stats.CrossChecks%s.CrossEach == 0 {
+		s.finalSeen++
+		if s.finalSeen <= s.CrossFirst || s.finalSeen%s.CrossEach == 0 {
+			s.Stats.CrossChecks++
 			if r, _ := s.fallback(); r != Unknown && r != res {
 				s.Stats.CrossDiffs++
 				s.LastErr = fmt.Sprintf("cross-solver disagreement: z3=%v other=%v", res, r)
